@@ -479,7 +479,7 @@ func vpPrefilterTree(r vpRowFacts, depth int) (PrefilterExpression, bool) {
 	if depth == 0 || nondetBool() {
 		return vpPrefilterLeaf(r)
 	}
-	n := nondetChoice(3) // 0,1,2 children
+	n := nondetChoice(3) // 0..2 children
 	isAnd := nondetBool()
 	var kids []PrefilterExpression
 	truth := isAnd // AND of nothing is true, OR of nothing is false
@@ -498,11 +498,16 @@ func vpPrefilterTree(r vpRowFacts, depth int) (PrefilterExpression, bool) {
 	return PrefilterExpression{ExpressionType: PrefilterExpressionOr, Children: kids}, truth
 }
 
-//vp:bounds AND/OR trees of depth <= 2 and width <= 2 over minmax / partition / nil / unknown leaves; any int64 row value, 1-byte partition IDs and operands
+// One AND/OR level over leaves. Deeper nesting is not enumerated here (a depth-2 run did not finish
+// in 50 minutes): that the evaluator computes the nested monotone AND/OR combination of its leaf
+// verdicts is C25's prefilter-tree harness (depth 2); with leaf soundness shown here it lifts.
+//
+//vp:nocross
+//vp:bounds a leaf, or one AND/OR node over <= 2 leaves (both tiers: neither depth 2 nor width 3 finished in 40 minutes), leaves minmax / partition / nil / unknown; any int64 row value, 1-byte partition IDs and operands
 //vp:maxpaths 400000
 func H_C04_trees_inherit_no_pruning() {
 	r := vpRowFacts{x: nondetInt64(), p: string([]byte{nondetU8()})}
-	tree, rowTruth := vpPrefilterTree(r, vpBound(1, 2))
+	tree, rowTruth := vpPrefilterTree(r, 1)
 	vpAssume(rowTruth)
 	idx := MinMaxIndex{Min: nondetInt64(), Max: nondetInt64()}
 	vpAssume(idx.Min <= r.x && r.x <= idx.Max)
